@@ -236,6 +236,25 @@ where
                 // set bits in `identifier_iter`. Since a bit must have been set to enter this
                 // block, there must be at least one component column.
                 unsafe { components.get_unchecked_mut(1..) };
+
+            // SAFETY: See the safety comment on the call in the other branch below; it applies to
+            // this call in the same way.
+            let result = unsafe {
+                R::deserialize_components_by_row(
+                    components,
+                    length,
+                    seq,
+                    identifier_iter,
+                    current_index + 1,
+                    identifier,
+                )
+            };
+            if result.is_err() {
+                // The row could not be completed. The component stored for it in this column is
+                // removed again, so that every column is back at `length` values.
+                v.pop();
+            }
+            return result;
         }
 
         // SAFETY: At this point, one bit of `identifier_iter` has been consumed. There are two
